@@ -122,6 +122,8 @@ def orswotOps : CrdtOps OS OOp where
   validateMerge := fun s o => showDsd (s.validateMerge o)
   resetRemove := some Orswot.resetRemove
   eq := some (fun a b => some (decide (a = b)))
+  persist := some (persistWith (orswotCodec natS natS))
+  persistOp := some (persistWith (orswotOpCodec natS natS))
   spec := specOrswot
   opDot := fun op => match op with
     | .add d _ => some (showDot d)
